@@ -83,6 +83,8 @@ Step(ev, s) ==
             /\ s.oblig = {}
             /\ \A c \in Cs : ~(s.cl[c].alive /\ s.cl[c].closing)
             /\ ev.timeout >= 0
+            \* the loop does not ask to sleep past the due time of a live timer (also one created by the callback that ran last)
+            /\ \A t \in DOMAIN s.tm : s.tm[t].alive => ev.now + ev.timeout <= s.tm[t].due
             \* a pending interrupt request is effective at once: the operating system is asked with the wake-up channel
             \* registered, so the very next poll reports it (run() does not sit out an unrelated time-out first)
             /\ (s.irq => ev.irq)
